@@ -1,7 +1,7 @@
 (* Properties/C17.v — Ticks are few enough, nice, ascending, inside the domain; Nice only expands.
    ONLY statements; each is closed by [exact] of a lemma from Proofs/Ticks*.v. *)
 From Coq Require Import Sorted.
-From MM Require Import Base.Num Model.Ticks Proofs.Ticks Proofs.TicksLinear Proofs.TicksNice Proofs.TicksLog Proofs.TicksLogExp Check.C17 Proofs.TicksCheck.
+From MM Require Import Base.Num Model.Ticks Proofs.Ticks Proofs.TicksLinear Proofs.TicksNice Proofs.TicksLog Proofs.TicksLogExp Proofs.TicksLogNice Check.C17 Proofs.TicksCheck.
 Local Open Scope Z_scope.
 
 (* ================= FindLevel (ticks.go:56-101) ================= *)
@@ -263,6 +263,54 @@ Theorem C17_log_nice_ends_are_powers : forall b mn mx o a c, (0 < mn)%Q -> (mn <
   (c = mx \/ exists n, c = qpow b n /\ f64_pos_ok c = true).
 Proof. exact log_nice_ends_are_powers. Qed.
 Print Assumptions C17_log_nice_ends_are_powers.
+
+(* The rounded-out count of a Log scale is non-increasing in the level (so Nice picks the lowest
+   fitting level) whenever the rounded-out exponent interval is proper *)
+Theorem C17_log_nice_count_nonincreasing : forall e, le_out_lo e < le_out_hi e ->
+  forall lo hi, log_count e true 0 <= MAXINT -> nonincreasing (log_count e true) lo hi.
+Proof. exact log_count_out_nonincreasing. Qed.
+Print Assumptions C17_log_nice_count_nonincreasing.
+
+(* LOG NICE IS IDEMPOTENT ON LANDED ENDS, and then the first and last major ticks are the ends:
+   for a positive domain whose Nice found level l and rounded out to the exponents f 2^l, la 2^l,
+   the domain [b^(f 2^l), b^(la 2^l)] - what Nice returns when both ends move onto their powers
+   (or already were those powers) - is left unchanged by a second Nice, and Ticks on it starts
+   at the first end and stops at the second.  (An end the repair of D10 leaves in place because
+   it lies within the slack of a power is NOT covered: its slack decision is re-taken with the
+   other end's new position.) *)
+Theorem C17_log_nice_idempotent_on_landed_ends : forall b mn mx o l, 2 <= b -> (0 < mn)%Q -> (mn < mx)%Q ->
+  let e := log_exps b mn mx in
+  le_out_lo e < le_out_hi e -> log_count e true 0 <= MAXINT -> o_max o < MAXINT ->
+  find_level o (log_count e true) 0 = FL_ok l ->
+  let f := fst (log_first_last e true l) in let la := snd (log_first_last e true l) in
+  (la * 2 ^ l - f * 2 ^ l + 1 <= MAXINT) ->
+  let a := qpow b (f * 2 ^ l) in let c := qpow b (la * 2 ^ l) in
+  log_nice b a c o = (a, c).
+Proof. exact log_nice_fixed_on_landed_ends. Qed.
+Print Assumptions C17_log_nice_idempotent_on_landed_ends.
+
+Theorem C17_log_nice_ends_are_first_last_major : forall b mn mx o l major minor, 2 <= b -> (0 < mn)%Q -> (mn < mx)%Q ->
+  let e := log_exps b mn mx in
+  le_out_lo e < le_out_hi e -> log_count e true 0 <= MAXINT -> o_max o < MAXINT ->
+  find_level o (log_count e true) 0 = FL_ok l ->
+  let f := fst (log_first_last e true l) in let la := snd (log_first_last e true l) in
+  (la * 2 ^ l - f * 2 ^ l + 1 <= MAXINT) ->
+  let a := qpow b (f * 2 ^ l) in let c := qpow b (la * 2 ^ l) in
+  log_ticks b a c o = TR_ticks major minor ->
+  exists rest, major = a :: rest /\ last major a = c.
+Proof. exact log_ticks_on_landed_ends. Qed.
+Print Assumptions C17_log_nice_ends_are_first_last_major.
+
+(* non-vacuity: [3, 20000] base 10, Max 3: level 2, exponents 0 and 8: Nice -> [1, 10^8], again
+   [1, 10^8]; Ticks = 1, 10^4, 10^8 *)
+Example C17_log_nice_example :
+  let e := log_exps 10 3 20000 in
+  le_out_lo e = 0 /\ le_out_hi e = 5 /\ find_level (mkOpts 3 0 0) (log_count e true) 0 = FL_ok 2 /\
+  log_first_last e true 2 = (0, 2) /\
+  log_nice 10 3 20000 (mkOpts 3 0 0) = (1%Q, 100000000%Q) /\
+  log_nice 10 1 100000000 (mkOpts 3 0 0) = (1%Q, 100000000%Q) /\
+  log_ticks 10 1 100000000 (mkOpts 3 0 0) = TR_ticks [1%Q; 10000%Q; 100000000%Q] [1%Q; 100%Q; 10000%Q; 1000000%Q; 100000000%Q].
+Proof. vm_compute. repeat split; reflexivity. Qed.
 
 (* non-vacuity: [3, 20000] base 10: exponents 1..4; Max = 2 -> level 1 (100, 10000), minor = level 0;
    Max = 5 -> level 0 with the 2..9 multiples as minor ticks; Nice(Max 3) -> [1, 10^8] (level 2, 3 ticks);
